@@ -48,7 +48,7 @@ def install(ex):
     # reading a gauge yields an arbitrary number (it may be combined arithmetically with program values)
     ex.model(r'vise::.*Gauge.*::get', lambda e, n, a: e.fresh('gauge'))
     # functions of a `metrics` module (not every function whose generic arguments mention a metrics type)
-    ex.model(r'vise::.*|<vise::.*|(\w+::)+metrics::.*|<(\w+::)+metrics::.*', lambda e, n, a: Opaque('metrics'))
+    ex.model(r'vise::.*|<vise::.*|(\w+::)+metrics::.*|<(\w+::)+metrics::.*', lambda e, n, a: (print('metrics-model:', n[:200]) if __import__('os').environ.get('MIRSYM_DEBUG') else None, Opaque('metrics'))[1])
     ex.error_from = lambda e, n, v: v if not re.search(r'Result<.*anyhow::Error>', M.parse_name(n)[0]) else anyhow_err()
 
 
